@@ -177,9 +177,11 @@ impl Constants {
             expression_scalars
                 .into_iter()
                 .try_fold(expression.clone(), |expr, scalar| {
-                    self.scalar(scalar).map(|constant| {
+                    // substituting a constant of another width than the scalar
+                    // makes the expression ill-sorted: decline
+                    self.scalar(scalar).and_then(|constant| {
                         expr.replace_scalar(scalar, &constant.clone().into())
-                            .unwrap()
+                            .ok()
                     })
                 })?;
 
